@@ -105,7 +105,7 @@ def parse_output(built, stdout, stderr):
     if j is None or res['summary'] is None:
         res['hard_errors'].append({'msg': 'verus produced no JSON result', 'rendered': stderr[-3000:], 'spans': [], 'kind': 'hard',
                                    'fn': None, 'clause': None})
-    elif res['summary'].get('encountered-vir-error') and not res['hard_errors']:
+    elif res['summary'].get('encountered-vir-error') and not res['hard_errors'] and not res['errors']:
         res['hard_errors'].append({'msg': 'verus reported a VIR error', 'rendered': stderr[-3000:], 'spans': [], 'kind': 'hard',
                                    'fn': None, 'clause': None})
     return res
@@ -127,6 +127,11 @@ def attribute(built, e, front_end_failed=False):
     # when the front end (rustc type checking, Verus mode/VIR checks) accepted the file, every error
     # diagnostic is a failed proof obligation; otherwise nothing was verified and all of them are hard errors
     is_verif = (not front_end_failed) and e.get('code') is None
+    # a `by(compute_only)` assertion that evaluates to false is reported by Verus' front end (and stops the run), but it is
+    # a decided obligation: the evaluator computed the value and it is not `true`
+    if e.get('code') is None and (msg.startswith('assert_by_compute') or 'simplifies to false' in msg):
+        is_verif = True
+        e['compute_failure'] = True
     if is_verif and ('rlimit' in msg or 'Resource limit' in msg):
         e['kind'] = 'rlimit'
     elif is_verif:
